@@ -228,17 +228,31 @@ class Monitor(object):
             if key in self.touched:
                 anc = []
                 stack = []
+                # Is an exception in flight, and in which pydl frame is it being handled?
+                # A mutation made while a failure is being handled is clean-up, never a
+                # perturbation (rule 1b of DESIGN.md 5.4).
+                exc = sys.exception()
+                hframe = exc.__traceback__.tb_frame if (exc is not None and exc.__traceback__ is not None) else None
+                hdepth = None
                 g = fr.f_back
                 while g is not None:
                     gc = g.f_code
+                    dg = _depth(g)
                     if gc.co_filename.startswith(PYDL):
                         stack.append(code_key(gc))
-                    ent = self.at_depth.get(_depth(g))
-                    if ent is not None and ent[1] is gc and ent[2] == g.f_lasti:
-                        anc.append(ent[0])
+                    if g is hframe and gc.co_filename.startswith(PYDL):
+                        hdepth = dg
+                    ent = self.at_depth.get(dg)
+                    # a CALL event sees f_lasti at the CALL instruction; while the callee
+                    # runs the caller's f_lasti has moved over the inline cache entries
+                    if ent is not None and ent[1] is gc and 0 <= g.f_lasti - ent[2] <= 8:
+                        anc.append((ent[0], dg))
                     g = g.f_back
-                self.mutations.append(dict(op=op, key=key, at=self.n, enclosing=sorted(anc),
-                                           stack=stack))
+                cleanup = None
+                if hdepth is not None:
+                    cleanup = sorted(i for i, dg in anc if dg >= hdepth)
+                self.mutations.append(dict(op=op, key=key, at=self.n, enclosing=sorted(i for i, _ in anc),
+                                           stack=stack, cleanup=cleanup))
             return None
         if not code.co_filename.startswith(PYDL) or code.co_name == '<module>':
             return mon.DISABLE
@@ -301,15 +315,30 @@ def run_plain(fn):
 
 def admissible_limit(m):
     """Rule 1 of DESIGN.md 5.4.  Index r such that only events < r may be fault
-    points: the outermost restoration-only ancestor of the first *second*
-    mutation of a touched variable, or the event count at that instant."""
+    points.  Restoration begins at the earliest of
+    (a) the first *second* mutation of a touched variable: r = its outermost
+        restoration-only ancestor (an in-progress call that began after the first
+        perturbation), or the event count at that instant;
+    (b) the first mutation made while an exception is being handled in a pydl frame
+        (clean-up code, even when the perturbation itself never happened): r = its
+        outermost in-progress call made by that frame or below, or the event count."""
     first = {}
     r = m.n
     for mu in m.mutations:
+        if mu.get('cleanup') is not None:
+            c = mu['cleanup']
+            cand = c[0] if c else mu['at']
+            if first:
+                at_perturb = min(first.values())
+                ronly = [a for a in mu['enclosing'] if a >= at_perturb]
+                if ronly:
+                    cand = min(cand, min(ronly))
+            r = min(r, cand)
+            break
         if mu['key'] in first:
             at_perturb = min(first.values())
             ronly = [a for a in mu['enclosing'] if a >= at_perturb]
-            r = min(ronly) if ronly else mu['at']
+            r = min(r, min(ronly) if ronly else mu['at'])
             break
         first[mu['key']] = mu['at']
     return r
